@@ -28,9 +28,12 @@ def covered(n, parent):
 
 # ------------------------------------------------------------------ C13
 def rfc4648(text):
-    """RFC 4648 decoding of a base64 text: alphabet characters then at most two '='; None if not decodable"""
+    """RFC 4648 decoding of the base64 CHARACTERS of a text (alphabet characters; padding is not data); None if undecodable"""
+    chars = b"".join(stdre.findall(rb"[A-Za-z0-9+/]", text))
+    if len(chars) % 4 == 1:
+        return None
     try:
-        return base64.b64decode(text, validate=True)
+        return base64.b64decode(chars + b"=" * (-len(chars) % 4), validate=True)
     except (binascii.Error, ValueError):
         return None
 
